@@ -5,6 +5,7 @@ import T2N.Driver.Proto
 import T2N.Driver.CC
 import T2N.Model.Api
 import T2N.Model.Script
+import T2N.Driver.Gen
 
 namespace T2N.Exec
 open T2N.Proto
@@ -143,6 +144,7 @@ def lookupSig (l : Lang) : String :=
 
 def exec (cc : CharClasses) (line : String) : String :=
   match line.splitOn "\t" with
+  | "gen" :: rest => Gen.gen rest
   | ["ds", ops] => runDs ((ops.splitOn " ").filter (· ≠ ""))
   | ["apply", lc, w, st] => withLang lc fun l =>
       let (r, b) := l.apply (unescape w) (parseState st)
